@@ -1605,6 +1605,32 @@ func (b *bodyErrReader) Read(p []byte) (int, error) {
 	for {
 		n := copy(p, b.held)
 		b.held = b.held[:0]
+		if n == len(p) {
+			// p has room for the held byte only (a caller that reads
+			// byte by byte, a LimitReader at its last byte): look one
+			// byte ahead to learn whether the held one is the last
+			var one [1]byte
+			m, err := b.r.Read(one[:])
+			switch {
+			case m == 1 && (err == nil || err == io.EOF):
+				// more follows: the held byte goes out, the new one is held
+				// (a clean end together with it is seen by the next call)
+				b.held = append(b.held, one[0])
+				return n, nil
+			case err == io.EOF:
+				b.done = true
+				return n, nil
+			case err != nil:
+				if b.err == nil {
+					b.err = err
+				}
+				return 0, err
+			default:
+				// no progress: keep holding
+				b.held = append(b.held, p[0])
+				continue
+			}
+		}
 		m, err := b.r.Read(p[n:])
 		n += m
 		switch {
